@@ -53,23 +53,51 @@ Definition check_centre (i : eid) (ps : list point) : bool :=
   | _ => false
   end.
 
+(* the reported edge latitudes are tied to their rows through a row function (at run time: the library's own point -> row formula,
+   PointF.y_f fed by Go's math.Tan/Cos/Log): a latitude is stored cut toward zero by < 1e-10 degrees, so the stored north edge of row y
+   lies in row y (northern hemisphere) or y-1 (southern), the stored south edge in row y+1 or y *)
+Definition row_tie (rowf : float -> option Z) (y : Z) (n s : float) : bool :=
+  match rowf n, rowf s with
+  | Some rn, Some rs => (y - 1 <=? rn) && (rn <=? y) && (y <=? rs) && (rs <=? y + 1)
+  | _, _ => false
+  end.
+Definition check_rows (rowf : float -> option Z) (i : eid) (ps : list point) : bool :=
+  match ps with
+  | p0 :: _ :: p2 :: _ => row_tie rowf (ey i) (plat p0) (plat p2)
+  | _ => false
+  end.
+
+(* the centre latitude against the corner latitudes of the same voxel (all observed): strictly between them, and bit for bit the
+   midpoint in degrees of the two reported edges after the documented truncation *)
+Definition check_centre_lat (n s c : float) : bool :=
+  ((s <? c) && (c <? n))%float && feqb_bits c (setlat_trunc ((n + s) / 2)%float).
+
 (* round trip: the ID obtained from the centre at the same zooms is the original ID (in normal form) *)
 Definition check_roundtrip (i : eid) (back : string) : bool := String.eqb back (print_eid i).
 
 (* ---- shared faces: two vertex lists of face-adjacent voxels; axis 0: B = A + (1,0,0) (east of A), 1: B = A + (0,1,0) (south of A),
-        2: B = A + (0,0,1) (above A). The four corners of the common face must be bit-identical points. ---- *)
+        2: B = A + (0,0,1) (above A): the four corners of the common face must be bit-identical points; 3: antimeridian. ---- *)
 Definition point_eqb_bits (p q : point) : bool :=
   feqb_bits (plon p) (plon q) && feqb_bits (plat p) (plat q) && feqb_bits (palt p) (palt q).
+(* the antimeridian: the east face of the last column reports +180, the west face of column 0 reports -180 (the same meridian);
+   latitude and altitude of the four corners are bit-identical *)
+Definition anti_pair (a b : point) : bool :=
+  feqb_bits (plon a) 180%float && feqb_bits (plon b) (-180)%float && feqb_bits (plat a) (plat b) && feqb_bits (palt a) (palt b).
 Definition check_shared (axis : Z) (a b : list point) : bool :=
   match a, b with
   | [a0; a1; a2; a3; a4; a5; a6; a7], [b0; b1; b2; b3; b4; b5; b6; b7] =>
       if axis =? 0 then point_eqb_bits a1 b0 && point_eqb_bits a2 b3 && point_eqb_bits a5 b4 && point_eqb_bits a6 b7
       else if axis =? 1 then point_eqb_bits a3 b0 && point_eqb_bits a2 b1 && point_eqb_bits a7 b4 && point_eqb_bits a6 b5
       else if axis =? 2 then point_eqb_bits a4 b0 && point_eqb_bits a5 b1 && point_eqb_bits a6 b2 && point_eqb_bits a7 b3
+      else if axis =? 3 then anti_pair a1 b0 && anti_pair a2 b3 && anti_pair a5 b4 && anti_pair a6 b7
       else false
   | _, _ => false
   end.
+(* axis 0: east neighbour, 1: south neighbour, 2: upper neighbour, 3: the cyclic east neighbour of the last column (column 0) *)
 Definition neighbour (axis : Z) (i : eid) : eid :=
   if axis =? 0 then mk (eh i) (ex i + 1) (ey i) (ev i) (ef i)
   else if axis =? 1 then mk (eh i) (ex i) (ey i + 1) (ev i) (ef i)
-  else mk (eh i) (ex i) (ey i) (ev i) (ef i + 1).
+  else if axis =? 2 then mk (eh i) (ex i) (ey i) (ev i) (ef i + 1)
+  else mk (eh i) 0 (ey i) (ev i) (ef i).
+Definition neighbour_ok (axis : Z) (i : eid) : bool :=
+  (0 <=? axis) && (axis <=? 3) && (if axis =? 3 then ex i =? 2 ^ eh i - 1 else true).
